@@ -25,6 +25,37 @@ CLAIMED = {
             "successful setter produces the Standard's state is value-level and not decided.",
             "typestate dataflow over per-instantiation CFGs with interprocedural summaries",
             "DESIGN.md §5 C03", "partial: the 'fails atomically' sentence"),
+    "C05": ("other",
+            "Decides the byte-range sentence at table level: all seven encode sets contain every byte outside "
+            "0x21-0x7E except that only the C0 set omits the space, the C0 set is referenced only by the opaque-path "
+            "state and parse_opaque_host, the fast path and the domain tables admit printable ASCII only, the "
+            "trailing-space rewrite and the four strip_trailing_spaces call sites are present under input.empty(). "
+            "The parse fixed point relates two executions and is not decided.",
+            "table algebra + who-references + state-region + must-dataflow queries",
+            "DESIGN.md §5 C05", "modulo C11.R3 (each component goes through its own set)"),
+    "C12": ("other",
+            "Decides the structural premises: stable sort; the comparator's two UTF-8->UTF-16 decoders are mirror "
+            "images; list syntax bytes (& = + %) are in the serializer's encode set, key and value are both decoded, "
+            "'+' decodes to space; C wrappers delegate by name (C17). List-model behaviour over operation sequences "
+            "is not decided.",
+            "resolved-callee query + twin-skeleton comparison + table algebra",
+            "DESIGN.md §5 C12", "partial"),
+    "C14": ("other",
+            "Slot consistency of the 8-fold component code in test/match/test_components/getters (one component per "
+            "statement, arguments bound to the parameter of the same name), identical handling of the four component "
+            "types by fast_test and fast_match (same acceptance condition per enumerator, same provider arguments), "
+            "and identical input plumbing of test and match (type_error, failure -> no match, delimiter stripping). "
+            "Regex semantics / captured groups are not decided.",
+            "slot-consistency (A6) and twin-skeleton (A5) rules over the explicit std_regex_provider instantiation",
+            "DESIGN.md §5 C14", "partial"),
+    "C15": ("other",
+            "Decides the condition the property text gives for the shortcuts: the 'simple' byte classes (computed "
+            "symbolically from the shortcut loops and char_class_table) are subsets of the bytes the parser-based slow "
+            "path leaves unchanged, the hostname shortcut is dominated by !is_ipv4, the protocol canonicaliser's byte "
+            "classes equal the Standard's, and every component flows through its own field / process_N / "
+            "canonicalize_N / component slot. Equality with the parser-based definition for every value is not decided.",
+            "byte-set semantics + must-dataflow + slot consistency",
+            "DESIGN.md §5 C15", "partial"),
     "C07": ("other",
             "Decides the offset-shift discipline of all 21 buffer editors (84 shifts) path-sensitively: every shift "
             "applied to a component offset is applied to every later offset on the same path unless that offset is "
@@ -76,7 +107,7 @@ NOT_APPLICABLE = {
            "no table, ordering, pairing or ownership fact whose breakage is necessary for a violation",
 }
 
-PENDING = {'C02': 'check not built yet in this round (see DESIGN.md §11 build order); not claimed until it is', 'C04': 'check not built yet in this round (see DESIGN.md §11 build order); not claimed until it is', 'C05': 'check not built yet in this round (see DESIGN.md §11 build order); not claimed until it is', 'C08': 'check not built yet in this round (see DESIGN.md §11 build order); not claimed until it is', 'C10': 'check not built yet in this round (see DESIGN.md §11 build order); not claimed until it is', 'C12': 'check not built yet in this round (see DESIGN.md §11 build order); not claimed until it is', 'C14': 'check not built yet in this round (see DESIGN.md §11 build order); not claimed until it is', 'C15': 'check not built yet in this round (see DESIGN.md §11 build order); not claimed until it is', 'C18': 'check not built yet in this round (see DESIGN.md §11 build order); not claimed until it is', 'C19': 'check not built yet in this round (see DESIGN.md §11 build order); not claimed until it is'}   # id -> reason, for properties whose check is not built yet
+PENDING = {'C02': 'check not built yet in this round (see DESIGN.md §11 build order); not claimed until it is', 'C04': 'check not built yet in this round (see DESIGN.md §11 build order); not claimed until it is', 'C08': 'check not built yet in this round (see DESIGN.md §11 build order); not claimed until it is', 'C10': 'check not built yet in this round (see DESIGN.md §11 build order); not claimed until it is', 'C18': 'check not built yet in this round (see DESIGN.md §11 build order); not claimed until it is', 'C19': 'check not built yet in this round (see DESIGN.md §11 build order); not claimed until it is'}   # id -> reason, for properties whose check is not built yet
 
 
 def main():
